@@ -168,6 +168,17 @@ CHECKS = {
               "circle_segment, revolve, extrude; L2 every factory with random placements evaluated at random parameters against the implicit equation of its shape, start point, orientation."),
         note=TB + " C13: libm cos/sin/sqrt/atan2 are read as the real functions (floating-point rounding is outside the model; the L2 tolerance is 1e-9 relative).",
         design='DESIGN.md section 8, C13'),
+    'C14': dict(
+        engine='interp',
+        technique='Coq proof (matrix algebra over lists, self-checked inverse/solve, collocation rows = evaluation rows, lifting lemma for tensor grids) + differential run of control points vs the extracted exact model + data-reproduction checks on every factory',
+        text=("PARTIAL proof level. Theorems in Properties/C14.v: curve interpolation satisfies N cp = x and evaluate(t_i) = x_i for any basis with non-singular collocation; interpolation and "
+              "least squares are projections (samples of a spline of the space return its control points) and the least-squares result satisfies the normal equations; every row of the "
+              "cubic_curve system (interpolation rows, first/second derivative rows per boundary type) holds for the returned control points; tensor-product surface interpolation passes "
+              "through its grid (through the lifting lemma). Not proved (checked at L2 only): PERIODIC cubic curves, chord-length default parameters, loft, manipulate, fit/fit_points, bezier, "
+              "rebuild, volume versions, and that floating-point LU agrees with the exact solve. Correspondence: L1 control points (and cubic knot vectors) of interpolate, least_square_fit, "
+              "cubic_curve (five boundary types) and surface interpolate vs the extracted exact model; L2 every factory reproduces its data / end conditions / sections / tolerance."),
+        note=TB + " C14: numpy/scipy linear solves are modelled by exact Gauss-Jordan elimination whose result is accepted only after checking shape, A X = B (and X A = I for inverses) inside the model; conditioning is outside the model (L1 tolerance 1e-6 relative, inputs with cond > 1e6 skipped).",
+        design='DESIGN.md section 8, C14'),
 }
 
 PENDING_REASON = "not claimed in this revision: model/theorems for this property are still being built (see DESIGN.md section 8 for the plan)"
